@@ -170,6 +170,9 @@ WHITELIST = [
      {"self": {"X": "float", "Y": "float", "Z": "float"}, "base": {"toECEFCoords()": "object[ECEFCoords]"}}, "object[ENUCoords]", {}),
     ("core/obs_coords.py", "ENUCoords.toECEFCoords", "ENUCoords_toECEFCoords",
      {"self": {"E": "float", "N": "float", "U": "float"}, "base": {"toECEFCoords()": "object[ECEFCoords]"}}, "object[ECEFCoords]", {}),
+    ("core/obs_coords.py", "ENUCoords.getX", "ENUCoords_getX", {"self": {"__class__": "ENUCoords", "E": "float", "N": "float", "U": "float"}}, "float", {}),
+    ("core/obs_coords.py", "ENUCoords.getY", "ENUCoords_getY", {"self": {"__class__": "ENUCoords", "E": "float", "N": "float", "U": "float"}}, "float", {}),
+    ("core/obs_coords.py", "ENUCoords.getZ", "ENUCoords_getZ", {"self": {"__class__": "ENUCoords", "E": "float", "N": "float", "U": "float"}}, "float", {}),
     ("core/obs_coords.py", "ENUCoords.__sub__", "ENUCoords_sub", {"self": {"__class__": "ENUCoords", "E": "float", "N": "float", "U": "float"}, "p": {"__class__": "ENUCoords", "E": "float", "N": "float", "U": "float"}}, "object[ENUCoords]", {}),
     ("core/obs_coords.py", "ENUCoords.norm2D", "ENUCoords_norm2D", {"self": {"__class__": "ENUCoords", "E": "float", "N": "float"}}, "float", {}),
     ("core/obs_coords.py", "ENUCoords.distance2DTo", "ENUCoords_distance2DTo", {"self": {"__class__": "ENUCoords", "E": "float", "N": "float", "U": "float"}, "point": {"__class__": "ENUCoords", "E": "float", "N": "float", "U": "float"}}, "float", {}),
@@ -178,6 +181,20 @@ WHITELIST = [
      {"assume_noop": ["Obs.__check_call_geom1"]}),
     ("algo/analytics.py", "ds", "analytics_ds", {"track": "objlist[Obs]", "i": "int"}, "float", {}),
     ("algo/analytics.py", "speed", "analytics_speed", {"track": "objlist[Obs]", "i": "int"}, "float", {}, {"imports": {"NAN": "core/utils.py"}}),
+    ("algo/interpolation.py", "prepareTimeSampling", "prepareTimeSampling_number",
+     {"input": "float", "tini": "float", "tfin": "float"}, "list[float]", {"output": "list[float]"}),
+    ("algo/interpolation.py", "prepareTimeSampling", "prepareTimeSampling_list",
+     {"input": "list[record[AbsTime]]", "tini": "float", "tfin": "float"}, "list[float]", {"output": "list[float]"}),
+    ("algo/interpolation.py", "prepareTimeSampling", "prepareTimeSampling_track",
+     {"input": "objlist[Obs]", "tini": "float", "tfin": "float"}, "list[float]", {"output": "list[float]"}),
+    ("algo/interpolation.py", "__resampleSpatial", "resampleSpatial", {"track": "objlist[Obs]", "ds": "float"}, "objlist[Obs]",
+     {"S": "list[float]", "running_id": "int"},
+     {"make": {"Obs(ENUCoords(_, _, _), ObsTime.readUnixTime(_))": "Obs"}, "assume_identity_methods": ["copy"],
+      "assume_noop_stmts": ["interp_points[0].features = []"], "result_call": "track.setObsList"}),
+    ("algo/interpolation.py", "__resampleTemporal", "resampleTemporal_number", {"track": "objlist[Obs]", "reference": "float"}, "objlist[Obs]",
+     {"T": "list[float]", "interp_points": "objlist[Obs]", "running_id": "int"},
+     {"make": {"Obs(ENUCoords(_, _, _), ObsTime.readUnixTime(_))": "Obs"}, "result_call": "track.setObsList",
+      "variants": {"prepareTimeSampling": "prepareTimeSampling_number"}}),
     ("core/utils.py", "isnan", "isnan", {"number": "float"}, "bool", {}),
     ("core/utils.py", "co_sum", "co_sum", {"tarray": "list[float]"}, "float", {"somme": "float"}, {"assume_identity": ["listify"]}),
     ("core/utils.py", "co_min", "co_min", {"tarray": "list[float]"}, "float", {}, {"assume_identity": ["listify"]}),
@@ -439,6 +456,13 @@ class FnTranslator:
         self.params = {}
         self.records = {}
         self.objclass = {}
+        # python KIND of a parameter, from the declared type string: decides `isinstance` tests on it
+        self.kind = {}
+        for k, v in params.items():
+            if isinstance(v, str):
+                vs = v.replace(" ", "")
+                self.kind[k] = ("track" if vs.startswith("objlist[") else "list" if vs.startswith("list[") else
+                                "number" if vs == "float" else "int" if vs == "int" else "bool" if vs == "bool" else "other")
         for k, v in params.items():
             if isinstance(v, dict):
                 self.records[k] = {f: parse_ty(t) for f, t in v.items() if f != "__class__"}
@@ -614,6 +638,14 @@ class FnTranslator:
             if len(vs) < 2:
                 bad(e, "tuple of fewer than two components")
             return Val("(" + ", ".join(v.term for v in vs) + ")", ("T", tuple(v.ty for v in vs)))
+        if isinstance(e, ast.List) and e.elts:
+            sts = [self.static_type(x, env) for x in e.elts]
+            if any(isinstance(t, tuple) and t[0] == "Rec" for t in sts) or (self.opts.get("assume_identity_methods") and all(
+                    isinstance(x, ast.Call) and isinstance(x.func, ast.Attribute) and x.func.attr in self.opts["assume_identity_methods"] for x in e.elts)):
+                vs = [self.expr_s(x, env, binds) for x in e.elts]
+                if not all(isinstance(v.ty, tuple) and v.ty[0] == "Rec" and v.ty == vs[0].ty for v in vs):
+                    bad(e, "list display mixing records and other values")
+                return Val("[" + ", ".join(v.term for v in vs) + "]", ("L", vs[0].ty))
         if isinstance(e, ast.List):
             vs = [self.expr(x, env, binds) for x in e.elts]
             if not vs:
@@ -623,6 +655,16 @@ class FnTranslator:
             if all(v.ty in ("F", "I") for v in vs):
                 return Val("[" + ", ".join(self.as_float(x, v) for x, v in zip(e.elts, vs)) + "]", ("L", "F"))
             bad(e, "list display of non-numbers")
+        if isinstance(e, ast.Call) and self.opts.get("make"):
+            r = self.make_record(e, env, binds)
+            if r is not None:
+                return r
+        if isinstance(e, ast.Call) and isinstance(e.func, ast.Attribute) and not e.args and not e.keywords \
+                and e.func.attr in self.opts.get("assume_identity_methods", ()):
+            rt = self.static_type(e.func.value, env)
+            if isinstance(rt, tuple) and rt[0] == "Rec":
+                # DECLARED: this argument-less method of a record returns (a copy of) the record — records are values here
+                return self.expr_s(e.func.value, env, binds)
         if isinstance(e, (ast.Attribute, ast.Call, ast.Subscript)):
             r = self.rec_access(e, env, binds)
             if r is not None:
@@ -810,8 +852,85 @@ class FnTranslator:
         parts = [self.cmp2(e, op, vals[i], vals[i + 1], nodes[i], nodes[i + 1]) for i, op in enumerate(e.ops)]
         return Val(parts[0] if len(parts) == 1 else "(%s && %s)" % tuple(parts), "B")
 
+    @staticmethod
+    def match_pattern(pat, node, holes):
+        """structural match of an expression against a pattern with holes `_`; the hole sub-expressions are collected in order"""
+        if isinstance(pat, ast.Name) and pat.id == "_":
+            holes.append(node)
+            return True
+        if type(pat) is not type(node):
+            return False
+        for fld in pat._fields:
+            if fld == "ctx":
+                continue
+            a, b = getattr(pat, fld), getattr(node, fld)
+            if isinstance(a, list):
+                if not isinstance(b, list) or len(a) != len(b):
+                    return False
+                for x, y in zip(a, b):
+                    if isinstance(x, ast.AST):
+                        if not FnTranslator.match_pattern(x, y, holes):
+                            return False
+                    elif x != y:
+                        return False
+            elif isinstance(a, ast.AST):
+                if not isinstance(b, ast.AST) or not FnTranslator.match_pattern(a, b, holes):
+                    return False
+            elif a != b:
+                return False
+        return True
+
+    def make_record(self, e, env, binds):
+        """DECLARED constructor pattern {"make": {"Obs(ENUCoords(_, _, _), ObsTime.readUnixTime(_))": "Obs"}}: an expression of
+        exactly this shape builds a record of that view whose leaves are the hole expressions, in order"""
+        for pat, view in self.opts.get("make", {}).items():
+            holes = []
+            if self.match_pattern(ast.parse(pat, mode="eval").body, e, holes):
+                leaves = flat_types(("Rec", view))
+                if len(leaves) != len(holes):
+                    bad(e, "pattern %s has %d holes, view %s has %d leaves" % (pat, len(holes), view, len(leaves)))
+                terms = []
+                for h, lt in zip(holes, leaves):
+                    v = self.expr(h, env, binds)
+                    terms.append(self.coerce(h, v, lt))
+                return Val(terms[0] if len(terms) == 1 else "(" + ", ".join(terms) + ")", ("Rec", view))
+        return None
+
+    def isinstance_test(self, e, env):
+        """`isinstance(p, C)` on a PARAMETER p that the function never rebinds, decided from p's declared kind:
+        list[..] is a `list`; objlist[..] is a `Track` (`tracklib.Track`); a declared float is "an int or a float": the test for
+        ONE of the two is refused, only the disjunction of both is accepted (true). Returns True / False / None (not of this form)."""
+        if not (isinstance(e, ast.Call) and isinstance(e.func, ast.Name) and e.func.id == "isinstance" and "isinstance" not in env
+                and len(e.args) == 2 and not e.keywords and isinstance(e.args[0], ast.Name)):
+            return None
+        x = e.args[0].id
+        if x not in self.kind or x in self.assigned:
+            bad(e, "isinstance of something that is not a never-rebound parameter with a declared kind")
+        cls = ast.unparse(e.args[1])
+        kind = self.kind[x]
+        if cls == "list":
+            return kind == "list"
+        if cls in ("Track", "tracklib.Track"):
+            return kind == "track"
+        if cls == "str":
+            return False if kind != "other" else bad(e, "isinstance(.., str) of an undeclared kind")
+        if cls in ("int", "float"):
+            if kind in ("list", "track"):
+                return False
+            if kind == "int":
+                return cls == "int"
+            bad(e, "isinstance(%s, %s) alone: a declared float is an int or a float" % (x, cls))
+        bad(e, "isinstance test against %s" % cls)
+
     def boolop(self, e, env, binds):
         is_and = isinstance(e.op, ast.And)
+        if not is_and and len(e.values) == 2 and all(
+                isinstance(v, ast.Call) and isinstance(v.func, ast.Name) and v.func.id == "isinstance" and len(v.args) == 2
+                and isinstance(v.args[0], ast.Name) for v in e.values) \
+                and e.values[0].args[0].id == e.values[1].args[0].id \
+                and {ast.unparse(v.args[1]) for v in e.values} == {"int", "float"} \
+                and self.kind.get(e.values[0].args[0].id) == "number" and e.values[0].args[0].id not in self.assigned:
+            return Val("true", "B")        # isinstance(p, int) or isinstance(p, float) on a declared number
         first = self.expr(e.values[0], env, binds)
         if first.ty != "B":
             bad(e, "and/or on a non-bool (truthiness is not in the subset)")
@@ -885,7 +1004,7 @@ class FnTranslator:
                 return t if isinstance(t, tuple) and t[0] in ("Rec", "Obj") else None
             t = self.static_type(inner, env) if (isinstance(inner, ast.Name) or self.objlist_item(inner, env) is not None) else None
             if isinstance(t, tuple) and t[0] == "Rec":
-                comp = dict(view_components(t[1])).get(".".join(reversed(segs)))
+                comp = self.path_type(t, ".".join(reversed(segs)))
                 if comp is not None:
                     return comp if isinstance(comp, tuple) and comp[0] in ("Rec", "Obj") else None
             st = self.path_step(inner)
@@ -894,8 +1013,27 @@ class FnTranslator:
             segs.append(st[0])
             inner = st[1]
 
+    def path_type(self, rt, path):
+        """type of the declared access path `path` from a record of type rt (through nested record views); None if undeclared"""
+        comps = dict(view_components(rt[1]))
+        if path in comps:
+            return comps[path]
+        segs = path.split(".")
+        for k in range(len(segs) - 1, 0, -1):
+            head = comps.get(".".join(segs[:k]))
+            if isinstance(head, tuple) and head[0] == "Rec":
+                return self.path_type(head, ".".join(segs[k:]))
+        return None
+
     def rec_component(self, node, v, path):
-        """component `path` of the record value v (a Val of type ("Rec", view)); None if the path is not declared"""
+        """component `path` of the record value v (a Val of type ("Rec", view)); a path may go through a record-valued
+        component into its view (`timestamp.toAbsTime()` = component `timestamp`, then `toAbsTime()` of its view);
+        None if the path is not declared"""
+        segs = path.split(".")
+        for k in range(len(segs) - 1, 0, -1):
+            head = self.rec_component(node, v, ".".join(segs[:k])) if ".".join(segs[:k]) in dict(view_components(v.ty[1])) else None
+            if head is not None and isinstance(head.ty, tuple) and head.ty[0] == "Rec":
+                return self.rec_component(node, head, ".".join(segs[k:]))
         comps = view_components(v.ty[1])
         n = len(flat_types(v.ty))
         off = 0
@@ -934,7 +1072,7 @@ class FnTranslator:
             t = self.static_type(inner, env) if (isinstance(inner, ast.Name) or self.objlist_item(inner, env) is not None) else None
             if isinstance(t, tuple) and t[0] == "Rec":
                 path = ".".join(reversed(segs))
-                if dict(view_components(t[1])).get(path) is not None:
+                if self.path_type(t, path) is not None:
                     root = self.expr_s(inner, env, binds) if not isinstance(inner, ast.Name) else Val(ident(inner.id), t)
                     return self.rec_component(e, root, path)
             st = self.path_step(inner)
@@ -1064,6 +1202,9 @@ class FnTranslator:
                 self.math.add(word)
                 return Val(word, "F")
             bad(e, "float() of a string")
+        it = self.isinstance_test(e, env)
+        if it is not None:
+            return Val("true" if it else "false", "B")
         if isinstance(f, ast.Name) and f.id == "len" and "len" not in env and len(e.args) == 1:
             v = self.expr(e.args[0], env, binds)
             if not (isinstance(v.ty, tuple) and v.ty[0] == "L"):
@@ -1434,6 +1575,16 @@ class FnTranslator:
         if not stmts:
             return K.end(env)
         s, rest = stmts[0], stmts[1:]
+        if ast.unparse(s) in self.opts.get("assume_noop_stmts", ()):
+            return self.block(rest, env, fresh, K)      # DECLARED: this statement has no effect on anything the function reads later
+        rc = self.opts.get("result_call")
+        if rc and isinstance(s, ast.Expr) and isinstance(s.value, ast.Call) and ast.unparse(s.value.func) == rc \
+                and len(s.value.args) == 1 and not s.value.keywords:
+            # DECLARED: the function's only effect is this call (a setter on a parameter); its argument is the function's RESULT.
+            # Accepted only as the LAST statement of the function body.
+            if rest or not isinstance(K, KFun) or s is not self.last_stmt:
+                bad(s, "the declared result call is not the last statement of the function")
+            return self.block([ast.copy_location(ast.Return(value=s.value.args[0]), s)], env, fresh, K)
         if isinstance(s, ast.Pass):
             return self.block(rest, env, fresh, K)
         if isinstance(s, ast.Expr):
@@ -1448,7 +1599,9 @@ class FnTranslator:
                 if x not in fresh or x not in env:
                     bad(s, "append to a list that was not created in this function")
                 binds = []
-                a = self.expr(v.args[0], env, binds)
+                a = self.expr_s(v.args[0], env, binds)
+                if a.ty == "S" or (isinstance(a.ty, tuple) and a.ty[0] == "Obj"):
+                    bad(s, "append of a string / an object")
                 elt = env[x][1]
                 if elt is None:
                     elt = a.ty if a.ty != "I" or a.lit is None else None
@@ -1583,6 +1736,10 @@ class FnTranslator:
                         want = want[1]      # declared maybe-unbound: after this assignment it is bound, of type τ
                     if want == "F" and ty in ("F", "I"):
                         term, ty = self.as_float(val, v), "F"
+                    elif want == ("L", "F") and ty == ("L", "I") and isinstance(val, ast.List):
+                        b2 = []
+                        term = "[" + ", ".join(self.as_float(x, self.expr(x, env, b2)) for x in val.elts) + "]"
+                        ty = ("L", "F")       # `S = [0]` later extended with floats
                     elif want == "I" and ty == "F":
                         pass        # declared int for its integer-literal bindings; this binding is a float (dynamic typing)
                     elif want != ty:
@@ -1671,6 +1828,7 @@ class FnTranslator:
                 env[k + "." + fld] = ft
         self._env_names = set(self.params)
         self.assigned = {n.id for n in ast.walk(fdef) if isinstance(n, ast.Name) and isinstance(n.ctx, ast.Store)}
+        self.last_stmt = fdef.body[-1]
         body = self.block(list(fdef.body), env, frozenset(), KFun(self))
         alltypes = [t for p, t in self.params.items() if p not in self.records] + [self.ret]
         for r in self.records.values():
@@ -1721,7 +1879,7 @@ class Unit:
     def __init__(self, repo, path, entries, registry=None):
         self.path, self.entries = path, entries
         self.src = os.path.join(repo, "tracklib", path)
-        self.done = {}      # python name -> FnTranslator (translated) | None (failed)
+        self.done = {}      # lean name -> FnTranslator (translated) | None (failed)
         self.out = []       # (lean text | comment)
         self.defs = {}
         self.tree = None
@@ -1862,22 +2020,29 @@ class Unit:
             if callee is not None and module_name(other.path) not in self.imports:
                 self.imports.append(module_name(other.path))
             return callee
-        if pyname not in self.done:
+        if len(entry) > 1:
+            # several translations of one function under different declared argument types (VARIANTS): the caller's
+            # signature says which one its call is, {"variants": {python name: lean name}}
+            want = caller.opts.get("variants", {}).get(pyname) if caller is not None else None
+            entry = [e for e in entry if e[2] == want]
+            if len(entry) != 1:
+                return None
+        if entry[0][2] not in self.done:
             self.run(entry[0])
-        return self.done[pyname]
+        return self.done[entry[0][2]]
 
     def run(self, entry):
         pyname = entry[1]
-        if pyname in self.done:
+        if entry[2] in self.done:
             return
-        self.done[pyname] = None   # a recursive call finds None: recursion is not in the subset
+        self.done[entry[2]] = None   # a recursive call finds None: recursion is not in the subset
         try:
             node = self.find(pyname)
             if node is None:
                 raise Unsupported("no unique function %s in %s" % (pyname, self.path))
             tr = FnTranslator(self, entry)
             text = tr.translate(node)
-            self.done[pyname] = tr
+            self.done[entry[2]] = tr
             self.out.append("/-- `%s` of tracklib/%s -/\n%s" % (pyname, self.path, text))
         except Unsupported as ex:
             self.out.append("-- NOT TRANSLATED: `%s` of tracklib/%s: %s\n" % (pyname, self.path, ex))
